@@ -489,6 +489,103 @@ example :
       .doq (some 0) (some 0) exNext
       = .exchanged [0, 0, 1, 0, 0, 1, 0, 0, 0, 0, 0, 0] (.view exReplyShort) := by decide
 
+/-! ## Round 5: response writers, failed writes and the pools
+
+The response writers re-slice their pooled buffer to the packed length and give it back when the
+write failed (DoQ: always), so the pool a writer is constructed with holds slices of any length.
+The theorems quantify over every interleaving of received messages and response writes (any
+response, any pooled buffer, any subset of failing writes) and over every *safe* wiring — one in
+which no fixed-size receive pool is shared with a writer; the production wiring is one. -/
+
+/-- **receive_buffers_keep_configured_length.**  The invariant of the receive pools: after any
+history of messages and (failed) response writes every buffer of a fixed-size receive pool (UDP,
+DoQ, upstream) still has the configured length. -/
+theorem receive_buffers_keep_configured_length (w : Wiring) (hw : SafeWiring w) (c : Cfg)
+    (evs : List EvW) (p : Path) (hp : p ≠ .tcp) :
+    ∀ b ∈ (runW w (ServerW.init c) evs).free (.recv p), b.length = c.size p := by
+  intro b hb
+  have := wfw_run w hw _ evs (wfw_init c) p hp b hb
+  rwa [runW_cfg] at this
+
+/-- The production wiring (`respPool: s.respPool` in `serveUDPPacket` and `serveTCPMessage`, the
+DoQ server's own `respPool`) is safe. -/
+theorem real_wiring_is_safe : SafeWiring realWiring := realWiring_safe
+
+/-- **decode_own_bytes_after_writes.**  After ANY history of messages and response writes, failed
+or not, the next message's outcome is `spec` of its own bytes and the configured size. -/
+theorem decode_own_bytes_after_writes (w : Wiring) (hw : SafeWiring w) (c : Cfg) (evs : List EvW)
+    (op : Op) :
+    (recvW (runW w (ServerW.init c) evs) op).2 = spec op.path (c.size op.path) op.wire := by
+  rw [recvW_outcome _ _ (wfw_run w hw _ evs (wfw_init c)), runW_cfg]
+  rfl
+
+/-- **failed_writes_unobservable.**  … which is what a freshly started server makes of it: responses
+that could not be sent to other clients are unobservable in how a message is decoded. -/
+theorem failed_writes_unobservable (w : Wiring) (hw : SafeWiring w) (c : Cfg) (evs : List EvW)
+    (op : Op) :
+    (recvW (runW w (ServerW.init c) evs) op).2 =
+      (recvW (ServerW.init c) { op with pick := none }).2 := by
+  rw [decode_own_bytes_after_writes w hw c evs op]
+  exact (decode_own_bytes_after_writes w hw c [] { op with pick := none }).symm
+
+/-- **written_own_bytes_after_writes.**  For EVERY wiring, history and pooled buffer (also a slice
+that a failed write left short) the bytes handed to the transport are the packed response (UDP),
+resp. its length and the packed response. -/
+theorem written_own_bytes_after_writes (w : Wiring) (c : Cfg) (evs : List EvW) (x : Write) :
+    (writeW w (runW w (ServerW.init c) evs) x).2 =
+      if w x.path = none ∨ x.path = .udp then x.msg else be16Bytes x.msg.length ++ x.msg := by
+  unfold writeW
+  split
+  · next h => simp [h]
+  · next pool h =>
+    simp only [h, writerSlice_eq]
+    by_cases hu : x.path = .udp <;> simp [hu]
+
+def exResp : Bytes := [0, 7, 0x81, 0x80, 0, 1, 0, 0, 0, 0, 0, 0, 1, 97]
+def exQuery : Bytes := [0, 9, 1, 0, 0, 1, 0, 0, 0, 0, 0, 0, 3, 102, 111, 111, 0, 0, 1, 0, 1]
+def exCfgW : Cfg := { udp := 32, tcp := 16, doq := 40, upsUdp := 40, upsTcp := 40 }
+
+set_option maxRecDepth 8000 in
+/-- Non-vacuity: under the production wiring a failed UDP write leaves a 14-byte slice in the
+response pool, the receive pool keeps its 32-byte buffer, and the next client's 21-byte query is
+decoded from all of its bytes. -/
+example :
+    (runW realWiring (ServerW.init exCfgW) [.recv ⟨.udp, none, [], exQuery⟩, .write ⟨.udp, none, exResp, true⟩]).free .respDNS
+      = [exResp] ∧
+    ((runW realWiring (ServerW.init exCfgW) [.recv ⟨.udp, none, [], exQuery⟩, .write ⟨.udp, none, exResp, true⟩]).free
+      (.recv .udp)).map List.length = [32] ∧
+    (recvW (runW realWiring (ServerW.init exCfgW) [.recv ⟨.udp, none, [], exQuery⟩, .write ⟨.udp, none, exResp, true⟩])
+      ⟨.udp, some 0, [], exQuery⟩).2 = .view exQuery := by decide
+
+/-- History independence of decoding for a server with writers wired by `w`. -/
+def WritesUnobservable (w : Wiring) : Prop :=
+  ∀ (c : Cfg) (evs : List EvW) (op : Op),
+    (recvW (runW w (ServerW.init c) evs) op).2 = (recvW (ServerW.init c) { op with pick := none }).2
+
+theorem writes_unobservable_now : WritesUnobservable realWiring :=
+  fun c evs op => failed_writes_unobservable realWiring realWiring_safe c evs op
+
+/-- **udp_writer_on_receive_pool_counterexample.**  A UDP writer constructed with the UDP *receive*
+pool violates the property: one response that cannot be sent leaves its 14-byte slice in the
+receive pool, and the next client's 21-byte query is cut to 14 bytes. -/
+theorem udp_writer_on_receive_pool_counterexample : ¬ WritesUnobservable udpWriterOnUdpPool := by
+  intro h
+  exact absurd (h exCfgW [.write ⟨.udp, none, exResp, true⟩] ⟨.udp, some 0, [], exQuery⟩) (by decide)
+
+/-- The same for the TCP/DoT writer constructed with the UDP receive pool (the slice it leaves is
+the length prefix and the response). -/
+theorem tcp_writer_on_udp_pool_counterexample : ¬ WritesUnobservable tcpWriterOnUdpPool := by
+  intro h
+  exact absurd (h exCfgW [.write ⟨.tcp, none, exResp, true⟩] ⟨.udp, some 0, [], exQuery⟩) (by decide)
+
+/-- What the next client sees under the broken wiring: its query cut to the length of the response
+that could not be sent; only successful writes before, and nothing is wrong yet. -/
+example :
+    (recvW (runW udpWriterOnUdpPool (ServerW.init exCfgW) [.write ⟨.udp, none, exResp, true⟩])
+      ⟨.udp, some 0, [], exQuery⟩).2 = .view (exQuery.take 14) ∧
+    (recvW (runW udpWriterOnUdpPool (ServerW.init exCfgW) [.write ⟨.udp, none, exResp, false⟩])
+      ⟨.udp, some 0, [], exQuery⟩).2 = .view exQuery := by decide
+
 #print axioms decode_own_bytes
 #print axioms history_unobservable
 #print axioms histories_indistinguishable
@@ -518,6 +615,14 @@ example :
 #print axioms chain_own_bytes
 #print axioms chain_history_unobservable
 #print axioms chain_sent_is_own_request
+#print axioms receive_buffers_keep_configured_length
+#print axioms real_wiring_is_safe
+#print axioms decode_own_bytes_after_writes
+#print axioms failed_writes_unobservable
+#print axioms written_own_bytes_after_writes
+#print axioms writes_unobservable_now
+#print axioms udp_writer_on_receive_pool_counterexample
+#print axioms tcp_writer_on_udp_pool_counterexample
 
 end Agd.Buffers
 #print axioms Agd.Tie.TrC06.translation_complete
